@@ -243,6 +243,12 @@ def r4(ctx):
     runs = [n for c in method_calls(f_ip, "run") if tail(c.func.value) == "self" for n in nodes_with(f_ip, c)]
     ctx.check("C03.R4", bool(bs) and bool(runs) and all(any(f_ip.cfg.dominates(b, r, follow_exc=False) for b in bs) for r in runs), key(f_ip, "booted-before-run"), site(f_ip),
               "Worker.init_process does not set booted = True before run()", "booted before run")
+    if bs and runs:
+        between = [n for n in f_ip.cfg.reachable(bs, follow_exc=False, stop=lambda n: n in runs) if n not in bs and n not in runs and n.kind in ("stmt", "test", "for", "with")
+                   and any(isinstance(x, ast.Call) for root in n.cover for x in ast.walk(root))]
+        ctx.check("C03.R4", not between, key(f_ip, "booted-last-before-run"), site(f_ip, between[0] if between else bs[0]),
+                  "code that can still fail (`%s`) runs after booted = True and before run(): a worker that cannot finish booting exits with the generic status, the master "
+                  "respawns it forever instead of halting with WORKER_BOOT_ERROR" % (between[0].text if between else ""), "booted = True immediately before run()")
     loads = [n for c in method_calls(f_ip, "load_wsgi") for n in nodes_with(f_ip, c)]
     ctx.check("C03.R4", bool(loads) and all(any(f_ip.cfg.dominates(l, b, follow_exc=False) for l in loads) for b in bs), key(f_ip, "booted-after-load"), site(f_ip),
               "booted is set before the application is loaded", "booted after load_wsgi")
@@ -345,6 +351,11 @@ def r5(ctx):
     g = f.cfg
     wp = calls_to(repo, f, "os.waitpid")
     ctx.need(wp, "C03.R5: os.waitpid not found in reap_workers")
+    wn = nodes_with(f, wp[0])
+    p = g.path(g.entry, [g.exit], without_nodes=wn, follow_exc=False)
+    ctx.check("C03.R5", p is None, key(f, "always-reaps"), site(f, wp[0]),
+              "reap_workers can return without calling waitpid (early return): a child that is not in WORKERS (the re-exec'ed master) is never reaped, reexec_pid is never reset",
+              "waitpid on every call", path=p and g.fmt_path(p))
     loop = f.module.enclosing(wp[0], ast.While)
     ctx.check("C03.R5", loop is not None and const(loop.test, NO) in (True, 1), key(f, "reap-loop"), site(f, wp[0]), "waitpid is not called in an unconditional loop: several dead children delivered as one SIGCHLD would be left as zombies",
               "while True loop")
